@@ -84,18 +84,22 @@ func freshClock() (*clock.MockClock, context.CancelFunc) {
 	return cm.GetMockClock(), cancel
 }
 
-func reqStream(r int, url string) publictypes.APIStreamI {
-	id := fmt.Sprintf("t%d", r)
+// streams: transaction id t<r>, sequence id t<seq> (what HAProxy passes on:
+// its unique id, or the client's x-lunar-sequence-id — the id of the first
+// attempt on a retry)
+func reqStream(r, seq int, url string, headers map[string]string) publictypes.APIStreamI {
+	if headers == nil {
+		headers = map[string]string{}
+	}
 	return stream_types.NewRequestAPIStream(lunar_messages.OnRequest{
-		ID: id, SequenceID: id, Method: "GET", Scheme: "https", URL: url,
-		Headers: map[string]string{},
+		ID: fmt.Sprintf("t%d", r), SequenceID: fmt.Sprintf("t%d", seq), Method: "GET", Scheme: "https", URL: url,
+		Headers: headers,
 	}, shared)
 }
 
-func respStream(r int, url string) publictypes.APIStreamI {
-	id := fmt.Sprintf("t%d", r)
+func respStream(r, seq int, url string) publictypes.APIStreamI {
 	return stream_types.NewResponseAPIStream(lunar_messages.OnResponse{
-		ID: id, SequenceID: id, Method: "GET", URL: url, Status: 200,
+		ID: fmt.Sprintf("t%d", r), SequenceID: fmt.Sprintf("t%d", seq), Method: "GET", URL: url, Status: 200,
 		Headers: map[string]string{},
 	}, shared)
 }
@@ -107,6 +111,14 @@ type resExec struct {
 	clk    *clock.MockClock
 	now    int64
 	cancel context.CancelFunc
+	opErrs []string // operations of the implementation that returned an error / panicked
+	errMu  sync.Mutex
+}
+
+func (x *resExec) noteErr(e string) {
+	x.errMu.Lock()
+	x.opErrs = append(x.opErrs, e)
+	x.errMu.Unlock()
 }
 
 func newResExec(k *Cfg) (*resExec, error) {
@@ -142,34 +154,49 @@ func newResExec(k *Cfg) (*resExec, error) {
 
 func (x *resExec) close() { x.cancel() }
 
-// op executes one operation to completion; verdict 1/0 for allowed, -1 otherwise.
-func (x *resExec) op(o Op) int {
+// op executes one operation to completion; verdict 1/0 for allowed, -1
+// otherwise, -2 when the implementation returned an error or panicked (the
+// model never says -2: reported as a disagreement, the run goes on).
+func (x *resExec) op(o Op) (v int) {
+	if o.Q >= len(x.quotas) && o.Name != "getq" && o.Name != "drop" && o.Name != "finish" {
+		panic("harness: only getq is generated for a rate quota")
+	}
+	defer func() {
+		if p := recover(); p != nil {
+			x.noteErr(fmt.Sprintf("%s(q%d) of t%d: panic: %v", o.Name, o.Q, o.R, p))
+			v = -2
+		}
+	}()
+	fail := func(err error) int {
+		x.noteErr(fmt.Sprintf("%s(q%d) of t%d: %v", o.Name, o.Q, o.R, err))
+		return -2
+	}
 	switch o.Name {
 	case "getq":
 		if _, err := x.rm.GetQuota(qid(o.Q), fmt.Sprintf("t%d", o.R)); err != nil {
-			panic(err)
+			return fail(err)
 		}
 	case "inc":
-		if err := x.quotas[o.Q].Inc(reqStream(o.R, "h0.com/x")); err != nil {
-			panic(err)
+		if err := x.quotas[o.Q].Inc(reqStream(o.R, o.Seq, "h0.com/x", nil)); err != nil {
+			return fail(err)
 		}
 	case "allowed":
-		ok, err := x.quotas[o.Q].Allowed(reqStream(o.R, "h0.com/x"))
+		ok, err := x.quotas[o.Q].Allowed(reqStream(o.R, o.Seq, "h0.com/x", nil))
 		if err != nil {
-			panic(err)
+			return fail(err)
 		}
 		if ok {
 			return 1
 		}
 		return 0
 	case "dec":
-		if err := x.quotas[o.Q].Dec(respStream(o.R, "h0.com/x")); err != nil {
-			panic(err)
+		if err := x.quotas[o.Q].Dec(respStream(o.R, o.Seq, "h0.com/x")); err != nil {
+			return fail(err)
 		}
 	case "drop":
-		x.rm.OnRequestDrop(respStream(o.R, "h0.com/x"))
+		x.rm.OnRequestDrop(respStream(o.R, o.Seq, "h0.com/x"))
 	case "finish":
-		x.rm.OnResponseFinish(respStream(o.R, "h0.com/x"))
+		x.rm.OnResponseFinish(respStream(o.R, o.Seq, "h0.com/x"))
 	default:
 		panic("bad op " + o.Name)
 	}
